@@ -187,14 +187,15 @@ def scenarios(tier, seed):
     # two pixels
     quick.append(("linesearch", {"max_it": 1, "max_zoom": 1, "pis": 1.0, "fk": False, "n": 2}))
     thorough.append(("linesearch", {"max_it": 2, "max_zoom": 1, "pis": None, "fk": False, "n": 2}))
-    for (mi, mz) in ((1, 2), (2, 2), (1, 3)):
+    for (mi, mz) in ((1, 2),):
+        # (max_it, max_zoom) = (2, 2) and (1, 3) do not finish within 40 minutes: not claimed
         thorough.append(("linesearch", {"max_it": mi, "max_zoom": mz, "pis": 1.0, "fk": False}))
         thorough.append(("linesearch", {"max_it": mi, "max_zoom": mz, "pis": 1.0, "fk": False, "c1": 0.3, "c2": 0.6}))
     for mname in ("SteepestDescent", "RelaxedNewton"):
         quick.append(("descent", {"minimizer": mname, "limit": 1, "max_it": 2, "max_zoom": 1}))
         thorough.append(("descent", {"minimizer": mname, "limit": 2, "max_it": 1, "max_zoom": 1}))
-        thorough.append(("descent", {"minimizer": mname, "limit": 2, "max_it": 2, "max_zoom": 1}))
-        thorough.append(("descent", {"minimizer": mname, "limit": 3, "max_it": 1, "max_zoom": 1}))
+        # three minimiser iterations, or two with two line-search iterations each, do not finish within 40 minutes: not claimed
+    thorough.append(("descent", {"minimizer": "SteepestDescent", "limit": 2, "max_it": 2, "max_zoom": 1}))
     quick.append(("bfgs", {"n": 2, "hist": 2, "steps": 2}))
     quick.append(("bfgs", {"n": 2, "hist": 1, "steps": 2}))
     quick.append(("bfgs", {"n": 2, "hist": 2, "steps": 4}))       # the circular history buffer has wrapped at the last point
@@ -222,8 +223,8 @@ META = {
     "functions_encoded": ["nifty.cl.minimization.line_search.{LineEnergy,LineSearch.perform_line_search,_zoom,_quadmin,_cubicmin}",
                           "nifty.cl.minimization.descent_minimizers.{DescentMinimizer.__call__,SteepestDescent,RelaxedNewton,L_BFGS.get_descent_direction,VL_BFGS.get_descent_direction,_InformationStore}",
                           "nifty.cl.minimization.iteration_controllers.GradientNormController"],
-    "bounds": {"line search": "(max_iterations, max_zoom_iterations) in {(1,1),(2,1),(3,1)} quick; zoom <= 3 thorough (best effort)",
-               "pixels": "1 (2 for a few)", "descent iterations": "<= 2 (3 thorough)", "BFGS": "dimension 2, history <= 2, <= 4 points (the circular buffer wraps)"},
+    "bounds": {"line search": "(max_iterations, max_zoom_iterations) in {(1,1),(2,1),(3,1)} quick; (1,2) thorough ((2,2) and (1,3) do not finish and are not claimed)",
+               "pixels": "1 (2 for a few)", "descent iterations": "1 quick, 2 thorough (3 do not finish and are not claimed)", "BFGS": "dimension 2, history <= 2, <= 4 points (the circular buffer wraps)"},
     "stubs": shims_cl.STUBS[:8] + ["the energy is an uninterpreted function (harness Energy subclass): every oracle answer is a fresh symbol"],
     "outside": ["interpolation denominators that are exactly zero (the code's ArithmeticError fall-backs; excluded by definedness side conditions)",
                 "NewtonCG's inner CG (C14)", "ScipyMinimizer", "more line-search iterations than the bound"],
